@@ -353,6 +353,24 @@ def lifespan_app(events, startup_delay=0.0, startup="complete", shutdown="comple
                 mark("startup.complete sent")
             elif startup == "failed":
                 await send({"type": "lifespan.startup.failed", "message": "no"})
+            elif startup == "failed-nested":
+                # as frameworks built on anyio do: the message is sent from a child task, so the failure reaches the
+                # server wrapped in an exception group
+                import sniffio
+
+                async def child():
+                    await send({"type": "lifespan.startup.failed", "message": "no"})
+
+                if sniffio.current_async_library() == "trio":
+                    import trio
+
+                    async with trio.open_nursery() as nursery:
+                        nursery.start_soon(child)
+                else:
+                    import asyncio
+
+                    async with asyncio.TaskGroup() as tg:
+                        tg.create_task(child())
             elif startup == "raise":
                 raise RuntimeError("no lifespan")
             elif startup == "hang":
@@ -435,7 +453,7 @@ def serve_cases(backend):
         fail("serve-raised", error=repr(sv.result["error"]))
 
     # 2./3. startup failed / timed out: abort with an error, nothing served
-    for kind, cfgkw in (("failed", {}), ("hang", {"startup_timeout": 0.3})):
+    for kind, cfgkw in (("failed", {}), ("failed-nested", {}), ("hang", {"startup_timeout": 0.3})):
         ev = []
         sv = Served(backend, lifespan_app(ev, startup=kind), **cfgkw)
         sv.thread.join(3.0)
@@ -445,7 +463,7 @@ def serve_cases(backend):
             fail("server-not-aborted-on-startup-" + kind, listening=s is not None)
             sv.stop()
         else:
-            want = "failed" if kind == "failed" else "timeout"
+            want = "failed" if kind.startswith("failed") else "timeout"
             if sv.result["error"] is None or classify(sv.result["error"]) != want:
                 fail("startup-" + kind + "-not-reported", error=repr(sv.result["error"]))
             if any(w.startswith("request") for _, w in ev):
